@@ -9,6 +9,7 @@ pub mod store;
 pub mod plan;
 pub mod hist;
 pub mod digest;
+pub mod crashfs;
 
 pub use runner::{CheckResult, Ctx, Fail, Obs, Tier};
 pub use val::{V, VT};
